@@ -28,9 +28,11 @@ def part_col(rng, kind, n):
     if kind == "int":
         return pd.Series(np.array([rng.choice([0, 1, 7, 12]) for _ in range(n)], dtype="int64"))
     if kind == "int_big":      # adjacent keys beyond the exact range of a double
-        return pd.Series(np.array([rng.choice([2 ** 53, 2 ** 53 + 1, 2 ** 62 + 3, 5]) for _ in range(n)], dtype="int64"))
+        pool = [2 ** 53, 2 ** 53 + 1, 2 ** 62 + 3, 5]     # the first rows take every key in turn: adjacent keys are always present together
+        return pd.Series(np.array([pool[i] if i < len(pool) else rng.choice(pool) for i in range(n)], dtype="int64"))
     if kind == "int_bigneg":   # negative keys, adjacent beyond the exact range of a double (signed text in drill directories)
-        return pd.Series(np.array([rng.choice([-(2 ** 53) - 1, -(2 ** 53), -4, 5]) for _ in range(n)], dtype="int64"))
+        pool = [-(2 ** 53) - 1, -(2 ** 53), -4, 5]
+        return pd.Series(np.array([pool[i] if i < len(pool) else rng.choice(pool) for i in range(n)], dtype="int64"))
     if kind == "cat_num":      # categorical TEXT labels that look like numbers / booleans / dates
         cats = ["1", "2", "10", "0.5", "True", "99"]
         return pd.Series(pd.Categorical([rng.choice(cats[:5]) for _ in range(n)], categories=cats))
